@@ -24,7 +24,7 @@ def main():
     extra = sys.argv[2:]          # further property ids to run the patch against
     wt = Path(f"/tmp/seed_{pid}")
     out = wt / "_out"
-    for k in (1, 2, 3, 4, 5, 6, 7, 8, 9, 10, 11, 12):
+    for k in range(1, 21):
         patch = out / f"patch{k}.diff"
         if not patch.exists():
             continue
